@@ -1,5 +1,141 @@
-"""Checker validation (thorough tier): break / twin variants applied to an in-memory overlay."""
+"""Checker validation (thorough tier): break / twin variants applied to an in-memory overlay of the parsed tree.
+
+A *break* variant is a small edit of the analysed source that violates one rule while the file still compiles;
+the property's rules must report it (at least one violation whose rule id starts with the expected prefix and whose
+construct contains the expected fragment).  A *twin* variant is a behaviour-preserving edit; the rules must stay
+silent (no violation beyond those of the unmodified tree).  Variants are text substitutions that must match exactly
+once; a variant whose anchor text is gone (the tree changed) is skipped and listed, never failed.  The exit code
+of a check reflects the property on the current tree only; validation results go to the evidence."""
+import multiprocessing
+import os
+import traceback
+from typing import List, Dict, Optional
+
+from . import AnalysisError
+
+REGISTRY: List[dict] = []
+
+
+def variant(vid, props, file, old, new, expect=None, kind='break', count=1, note=''):
+    """expect: (rule prefix, construct fragment) for break variants; None for twins."""
+    REGISTRY.append({'id': vid, 'props': props if isinstance(props, (list, tuple)) else [props], 'file': file,
+                     'edits': [(file, old, new, count)], 'expect': expect, 'kind': kind, 'note': note})
+
+
+def variant_multi(vid, props, edits, expect=None, kind='break', note=''):
+    REGISTRY.append({'id': vid, 'props': props if isinstance(props, (list, tuple)) else [props],
+                     'file': edits[0][0], 'edits': [(f, o, n, 1) for f, o, n in edits], 'expect': expect,
+                     'kind': kind, 'note': note})
+
+
+def _load_registry():
+    if not REGISTRY:
+        from . import variant_defs  # noqa: F401  (fills REGISTRY)
+    return REGISTRY
+
+
+def _apply(root, v) -> Optional[Dict[str, str]]:
+    overlay = {}
+    for file, old, new, count in v['edits']:
+        path = os.path.join(root, file)
+        if not os.path.exists(path):
+            return None
+        src = overlay.get(file)
+        if src is None:
+            with open(path, encoding='utf-8') as f:
+                src = f.read()
+        if src.count(old) != count:
+            return None
+        overlay[file] = src.replace(old, new)
+    return overlay
+
+
+def _run_one(args):
+    root, prop, v, base_keys = args
+    from .index import load
+    from .report import Report
+    from .rules import PROPERTIES, Ctx
+    try:
+        overlay = _apply(root, v)
+        if overlay is None:
+            return v['id'], 'skipped', 'anchor text not found exactly once', []
+        for file, src in overlay.items():
+            compile(src, file, 'exec')
+        repo = load(root, overlay)
+        rep = Report(prop, 'quick', 0, root)
+        ctx = Ctx(repo, rep, 'quick', 0)
+        for rid, fn in PROPERTIES[prop].RULES:
+            fn(ctx)
+        viol = sorted({i.key() for i in rep.instances if not i.ok})
+        new = [k for k in viol if k not in base_keys]
+        return v['id'], 'ran', '', new
+    except AnalysisError as e:
+        return v['id'], 'analysis-error', str(e), []
+    except SyntaxError as e:
+        return v['id'], 'skipped', 'variant does not compile: %s' % e, []
+    except Exception:
+        return v['id'], 'analysis-error', traceback.format_exc()[-400:], []
 
 
 def validate(ctx, prop):
-    ctx.report.note('variant validation not yet registered for %s' % prop)
+    rep = ctx.report
+    reg = [v for v in _load_registry() if prop in v['props']]
+    base_keys = {i.key() for i in rep.instances if not i.ok}
+    jobs = [(ctx.repo.root, prop, v, base_keys) for v in reg]
+    results = {}
+    if jobs:
+        n = min(16, len(jobs), os.cpu_count() or 1)
+        try:
+            with multiprocessing.get_context('fork').Pool(n) as pool:
+                for vid, status, msg, new in pool.imap_unordered(_run_one, jobs):
+                    results[vid] = (status, msg, new)
+        except Exception:
+            for j in jobs:
+                vid, status, msg, new = _run_one(j)
+                results[vid] = (status, msg, new)
+    summary = {'break_total': 0, 'break_detected': 0, 'twin_total': 0, 'twin_silent': 0, 'skipped': [],
+               'missed': [], 'noisy_twins': [], 'analysis_errors': []}
+    details = []
+    for v in reg:
+        status, msg, new = results.get(v['id'], ('skipped', 'not run', []))
+        if status == 'skipped':
+            summary['skipped'].append('%s: %s' % (v['id'], msg))
+            continue
+        if v['kind'] == 'break':
+            summary['break_total'] += 1
+            hit = False
+            if status == 'analysis-error':
+                # fail-closed on a broken tree counts as "not silently passed" but is listed separately
+                summary['analysis_errors'].append('%s: %s' % (v['id'], msg[:200]))
+            else:
+                exp = v['expect']
+                for k in new:
+                    rule, _, construct = k.partition('|')
+                    if exp is None or (rule.startswith(exp[0]) and exp[1] in construct):
+                        hit = True
+            if hit:
+                summary['break_detected'] += 1
+            elif status != 'analysis-error':
+                summary['missed'].append('%s (expected %s, new violations: %s)' % (v['id'], v['expect'], new[:3]))
+            details.append({'variant': v['id'], 'kind': 'break', 'detected': hit, 'reported': new[:4]})
+        else:
+            summary['twin_total'] += 1
+            if status == 'ran' and not new:
+                summary['twin_silent'] += 1
+            else:
+                summary['noisy_twins'].append('%s: %s %s' % (v['id'], status, (new or [msg])[:2]))
+            details.append({'variant': v['id'], 'kind': 'twin', 'silent': status == 'ran' and not new})
+    rep.stats['checker_validation'] = summary
+    rep.stats['checker_validation_details'] = details[:80]
+    rep.note('checker validation for %s: %d/%d break variants detected, %d/%d twin variants silent, %d skipped' % (
+        prop, summary['break_detected'], summary['break_total'], summary['twin_silent'], summary['twin_total'],
+        len(summary['skipped'])))
+    print('%s thorough: checker validation: %d/%d break variants detected, %d/%d twins silent, %d skipped, '
+          '%d analysis-errors' % (prop, summary['break_detected'], summary['break_total'], summary['twin_silent'],
+                                  summary['twin_total'], len(summary['skipped']), len(summary['analysis_errors'])))
+    for m in summary['missed']:
+        print('  MISSED-VARIANT %s' % m)
+    for m in summary['noisy_twins']:
+        print('  NOISY-TWIN %s' % m)
+    for m in summary['analysis_errors']:
+        print('  VARIANT-ANALYSIS-ERROR %s' % m)
